@@ -86,6 +86,24 @@ func (e *c20Engine) Describe() kit.Description {
 			"sync.Mutex keeps its locked flag in bit 0 of its first word (self-tested at start-up)",
 			"the race detector keeps a bounded access history per word; runs are short (hundreds of accesses)",
 		},
+		Legend: map[string]string{
+			"site_01": "bloom: about to Lock the filter mutex (gate: not enabled while the real mutex is held)",
+			"site_02": "bloom: just acquired the filter mutex",
+			"site_03": "bloom: about to Unlock",
+			"site_04": "bloom: between two hash functions of add / matches",
+			"site_05": "bloom: between the output phase and the input phase of matchTxAndUpdate",
+			"site_06": "bloom: between two outputs of matchTxAndUpdate",
+			"site_07": "bloom: between two transactions of a block scan",
+			"site_17": "gcs: about to decode one value from the bit stream",
+			"site_18": "gcs: between two iterations of a query loop",
+			"site_19": "gcs: just took the private copy of the filter bytes",
+			"site_20": "bloom: before any statement (inserted automatically in the scratch copy; every k-th offers a decision)",
+			"site_36": "gcs: before any statement (inserted automatically in the scratch copy; every k-th offers a decision)",
+			"site_40": "harness: before a client operation is invoked",
+			"site_41": "harness: after a client operation returned",
+			"site_62": "scheduler: a task released by the runtime claimed the idle baton",
+			"site_63": "scheduler: take-over after the current task was found blocked inside the runtime",
+		},
 		NeedsRace:    true,
 		FreshProcess: true,
 	}
